@@ -242,7 +242,10 @@ EvalE(e, st) ==
          ELSE IF e.n \in DOMAIN l.v.f THEN Ok(l.v.f[e.n], l.st) ELSE Err(l.st)
     [] e.t = "mcall" ->                                \* method call on a struct value (value or pointer receiver)
          LET l == EvalE(e.l, st) IN IF l.k # "ok" THEN NoUnk(l) ELSE
-         IF l.v.t = "rec" /\ e.n \in DOMAIN l.v.m THEN Ok(l.v.m[e.n], l.st) ELSE Err(l.st)
+         IF l.v.t = "rec" /\ e.n \in DOMAIN l.v.m
+         THEN (IF l.v.m[e.n].t = "failv"      \* a (value, error) method that fails: recorded like the failing helper
+               THEN ErrW(Log(l.st, [f |-> "fail", id |-> 1, v |-> Nil])) ELSE Ok(l.v.m[e.n], l.st))
+         ELSE Err(l.st)
     [] e.t = "fn"   -> Ok(Fn(e.ps, e.body), st)
     [] e.t = "assign" ->
          LET r == EvalE(e.e, st) IN IF r.k # "ok" THEN NoUnk(r) ELSE
